@@ -9,6 +9,8 @@ id="$1"; tier="${2:-${VERIF_TIER:-quick}}"
 if [ ! -x bin/gosx ] || [ -n "$(find engine -name '*.go' -newer bin/gosx 2>/dev/null | head -1)" ]; then
   mkdir -p bin && (cd engine && go build -o ../bin/gosx ./cmd/gosx) || { echo "cannot build gosx"; exit 2; }
 fi
+# C14 harness cases are generated from the generated TL code of the tree being checked
+[ "$id" = C14 ] && { python3 tools/gen_c14.py >/dev/null || { echo "cannot generate C14 harness"; exit 2; }; }
 lim=3000; [ "$tier" = thorough ] && lim=14000
 if [ $# -ge 2 ]; then shift 2; else shift $#; fi
 timeout -k 10 $lim ./bin/gosx check -tier "$tier" "$@" "$id"
